@@ -164,6 +164,10 @@ def poly_program(rng):
         # the whole body is one compound statement (arguments are positive, so a value is always returned)
         ("onlyif", ["v"], ["    if v > 0:", "        w = v * 2", "        return w"], ["num"]),
         ("onlyloop", ["v"], ["    while v > 0:", "        w = v + v", "        mon.write(w)", "        return w"], ["num"]),
+        # annotations are not enforced by Python: the call-site value decides what the parameter holds
+        ("ascale", ["x: int", "k"], ["    return x * k"], ["num", "int"]),
+        ("apick", ["flag: bool", "v: float"], ["    if flag:", "        return v", "    return v + 1"], ["int", "int"]),
+        ("alabel", ["s: str"], ["    return s + s"], ["any"]),
         ("clampf", ["v"], ["    if v > 1000:", "        return 1000", "    if v < 0:", "        return False", "    return v * 0.5"], ["num"]),
     ]
     chosen = rng.sample(bodies, rng.randint(1, 3))
@@ -192,6 +196,17 @@ def poly_program(rng):
     if rng.random() < 0.4:
         # a comprehension variable that shadows a typed outer name must not change that name's type afterwards
         L += ["kq = 0.5", "xs = [kq * 2 for kq in range(3)]", "zq = kq + 1", "mon.write(zq)", "mon.write(xs[2])"]
+    if rng.random() < 0.4:
+        # two helpers (and top-level code) use the SAME local name with different types, first assigned in if/else arms in one
+        # and inside a loop body in the other: every scope has its own declaration
+        nm = rng.choice(["tloc", "acc", "val"])
+        L += [f"def arms_{nm}(v):", "    if v > 100:", f"        {nm} = 1", "    else:", f"        {nm} = 2", f"    return {nm}", "",
+              f"def loop_{nm}(n):", "    for k in range(n):", f"        {nm} = k * 0.5", f"    return {nm}", "",
+              f"def wloop_{nm}(n):", "    w = n", "    while w > 0:", "        w -= 1", f"        {nm} = \"s\" + str(w)", f"    return {nm}", ""]
+        calls = [f"qa = arms_{nm}(iv)", "mon.write(qa)", f"qb = loop_{nm}(iw)", "mon.write(qb)", f"qc = wloop_{nm}(2)", "mon.write(qc)"]
+        if rng.random() < 0.5:
+            calls = calls[2:4] + calls[0:2] + calls[4:]
+        L += calls
     k = 0
     for name, params, body, kinds in chosen:
         pools = {"num": ["iv", "fv", "iw", "fw2", "3"], "int": ["iw", "2", "3"], "any": ["iv", "fv", "sv"]}
